@@ -558,3 +558,207 @@ Theorem C16_md_precheck_is_C01_precheck_on_the_root :
     Glue_xsw.whole_ref (El n i pl kids) || Xsw.precheck (Glue_xsw.emb (El n i pl kids)) (N.succ n) i.
 Proof. exact Glue_xsw.md_precheck_char. Qed.
 Print Assumptions C16_md_precheck_is_C01_precheck_on_the_root.
+
+(* ---- (6) validUntil AS WRITTEN (Model/MdSpell.v) ----------------------------
+   The statements above start from documents whose validUntil is a number.  The
+   library starts from the attribute text; str_to_time interprets the second-
+   resolution ...Z form, the same without Z, and both with a fraction of ANY
+   number of digits (the fraction is dropped: the instant is the whole second),
+   and nothing else - in particular no time-zone offset.  [lenient] is what
+   do_entity_descriptor does with an uninterpretable text: true = the library
+   as it is (AttributeError swallowed, the entity counts as valid), false = the
+   library with proposed_fix/C16-4 (the entity counts as too old). *)
+From PV Require Import Model.MdSpell Proofs.MdSpell_lemmas.
+
+Theorem C16_spellings_that_parse :
+  forall t ds, forallb is_digit ds = true ->
+    str_to_time {| vt_core := CoreDate t; vt_suffix := [90] |} = Ok t /\                  (* ...SSZ *)
+    str_to_time {| vt_core := CoreDate t; vt_suffix := [] |} = Ok t /\                    (* ...SS *)
+    str_to_time {| vt_core := CoreDate t; vt_suffix := 46 :: ds ++ [90] |} = Ok t /\      (* ...SS.dddZ, any number of digits *)
+    str_to_time {| vt_core := CoreDate t; vt_suffix := 46 :: ds |} = Ok t.                (* ...SS.ddd *)
+Proof. exact str_to_time_parses. Qed.
+Print Assumptions C16_spellings_that_parse.
+
+(* any character other than a digit, the dot, Z, z and a line feed after the seconds (the + - : of an offset, a
+   blank, a comma): AttributeError from elem.groups() on None *)
+Theorem C16_offset_spellings_do_not_parse :
+  forall v c, In c (vt_suffix v) -> suffix_char_ok c = false -> str_to_time v = Err AttributeError.
+Proof. exact str_to_time_foreign_char. Qed.
+Print Assumptions C16_offset_spellings_do_not_parse.
+
+(* the text layer is the store model above on the elaborated documents: every theorem of (1)-(5) holds of it *)
+Theorem C16_text_layer_is_the_store_model :
+  forall lenient now rsrcs,
+    rload_all lenient now [] rsrcs = load_all now [] (map (elab_source lenient) rsrcs) /\
+    map none_b (rload_outcomes lenient now [] rsrcs) =
+    map none_b (load_outcomes now [] (map (elab_source lenient) rsrcs)) /\
+    fst (rimp lenient now [] rsrcs) = fst (imp now [] (map (elab_source lenient) rsrcs)).
+Proof.
+  intros. split; [apply rload_all_bridge|]. split; [apply rload_outcomes_bridge|]. apply rimp_bridge.
+Qed.
+Print Assumptions C16_text_layer_is_the_store_model.
+
+(* FULL STATEMENT over the texts (library with proposed_fix/C16-4): an entity held by a registered source comes
+   from a configured, admissible source; when validity checking reaches the source, its validUntil text - and, in
+   an aggregate, the aggregate's - is absent or IS INTERPRETED as an instant that has not passed; an aggregate
+   that is served has no uninterpretable validUntil anywhere (valid_instance passed) *)
+Theorem C16_spelled_expired_never_served :
+  forall now rsrcs k m eid e,
+    In (k, m) (rload_all false now [] rsrcs) -> aget eid m = Some e ->
+    exists rs re, In rs rsrcs /\ s_key (rs_src rs) = k /\ admissible (rs_src rs) /\
+      e = stored_form (ent_of re) /\ e_id (re_ent re) = eid /\
+      (eff_check (rs_src rs) = true -> spelled_unexpired now (re_vu re)) /\
+      match rs_body rs with
+      | RMany vu iv es => In re es /\ doc_ivalid vu iv es = IvOk /\
+                          (eff_check (rs_src rs) = true -> spelled_unexpired now vu)
+      | RSingle re1 => re = re1
+      | RNotMetadata => False
+      end.
+Proof.
+  intros now rsrcs k m eid e Hin Hget.
+  destruct (rserved_declared false now rsrcs k m eid e Hin Hget) as (rs & re & H1 & H2 & H3 & H4 & H5 & Hb).
+  exists rs, re. repeat (split; [assumption|]). destruct (rs_body rs) as [vu iv es|re1|].
+  - destruct Hb as (Hre & Hiv & Hc). split; [intros C; now destruct (Hc C)|].
+    split; [exact Hre|]. split; [exact Hiv|]. intros C; now destruct (Hc C).
+  - destruct Hb as (-> & Hc). split; [|reflexivity]. intros C. destruct (Hc C) as [H|[H _]]; [exact H|discriminate].
+  - destruct Hb.
+Qed.
+Print Assumptions C16_spelled_expired_never_served.
+
+(* the library AS IT IS does not satisfy it: a stand-alone EntityDescriptor whose validUntil - one second in the
+   past - is written with a time-zone offset (a legal xs:dateTime) is served; with proposed_fix/C16-4 it is not *)
+Definition offset_text (t : Z) : vutext := {| vt_core := CoreDate t; vt_suffix := s2l "+00:00" |}.
+Definition offset_source (t : Z) : rsource :=
+  {| rs_src := inline_source witness_entity;
+     rs_body := RSingle {| re_vu := Some (offset_text t); re_iv := IvOk; re_ent := witness_entity |} |}.
+Theorem C16_spelled_expired_never_served_refuted :
+  exists now rs re m,
+    rs_body rs = RSingle re /\ eff_check (rs_src rs) = true /\
+    re_vu re = Some (offset_text (now - 1)) /\ ~ spelled_unexpired now (re_vu re) /\
+    rload_all true now [] [rs] = [(s_key (rs_src rs), m)] /\ aget (e_id (re_ent re)) m <> None /\
+    (exists l, store_service (rload_all true now [] [rs]) (e_id (re_ent re)) T_IDP S_SSO B_REDIRECT = Ok l) /\
+    (* with the proposed repair the same source is registered empty *)
+    rload_all false now [] [rs] = [(s_key (rs_src rs), [])].
+Proof.
+  exists 100%Z, (offset_source 99). eexists. eexists.
+  split; [reflexivity|]. split; [reflexivity|]. split; [reflexivity|]. split.
+  - intros [H|(x & t & H & Hs & _)]; [discriminate|]. injection H as <-. vm_compute in Hs. discriminate.
+  - split; [vm_compute; reflexivity|]. split; [vm_compute; discriminate|].
+    split; [eexists; vm_compute; reflexivity|vm_compute; reflexivity].
+Qed.
+Print Assumptions C16_spelled_expired_never_served_refuted.
+
+(* ... and satisfies it for every text that str_to_time interprets; the exception, characterised: a stand-alone
+   EntityDescriptor whose validUntil text makes str_to_time raise AttributeError *)
+Theorem C16_spelled_expired_never_served_partial :
+  forall now rsrcs k m eid e,
+    In (k, m) (rload_all true now [] rsrcs) -> aget eid m = Some e ->
+    exists rs re, In rs rsrcs /\ s_key (rs_src rs) = k /\ admissible (rs_src rs) /\
+      e = stored_form (ent_of re) /\ e_id (re_ent re) = eid /\
+      match rs_body rs with
+      | RMany vu iv es =>
+          In re es /\ doc_ivalid vu iv es = IvOk /\
+          (eff_check (rs_src rs) = true -> spelled_unexpired now vu /\ spelled_unexpired now (re_vu re))
+      | RSingle re1 =>
+          re = re1 /\
+          (eff_check (rs_src rs) = true ->
+             spelled_unexpired now (re_vu re) \/ exists x, re_vu re = Some x /\ str_to_time x = Err AttributeError)
+      | RNotMetadata => False
+      end.
+Proof.
+  intros now rsrcs k m eid e Hin Hget.
+  destruct (rserved_declared true now rsrcs k m eid e Hin Hget) as (rs & re & H1 & H2 & H3 & H4 & H5 & Hb).
+  exists rs, re. repeat (split; [assumption|]). destruct (rs_body rs) as [vu iv es|re1|]; [exact Hb| |exact Hb].
+  destruct Hb as (-> & Hc). split; [reflexivity|]. intros C. destruct (Hc C) as [H|[_ H]]; [now left|now right].
+Qed.
+Print Assumptions C16_spelled_expired_never_served_partial.
+
+(* an EntitiesDescriptor with ONE uninterpretable validUntil - its own or a child's - fails closed as a whole
+   (valid_date_time turns any exception of str_to_time into NotValid): it is registered empty *)
+Theorem C16_uninterpretable_text_in_aggregate_contributes_nothing :
+  forall lenient now check vu iv es,
+    (vu_bad vu = true \/ (iv = IvOk /\ exists re, In re es /\ vu_bad (re_vu re) = true /\
+                           forall re', In re' es -> re_iv re' = IvOk)) ->
+    rparse lenient now check (RMany vu iv es) = Ok [].
+Proof. exact bad_text_in_aggregate. Qed.
+Print Assumptions C16_uninterpretable_text_in_aggregate_contributes_nothing.
+
+(* ---- (7) histories on one long-lived store -----------------------------------
+   loads interleaved with lookups, in any order and number: the answers of a lookup are exactly those of the store
+   made by the loads that precede it - lookups leave no trace, a raising load leaves the store as it was - so
+   (1)-(6) hold at every point of a history (induction over the operation sequence) *)
+Theorem C16_history :
+  forall lenient now pre qs post,
+    run_ops lenient now [] (pre ++ OpAsk qs :: post) =
+    run_ops lenient now [] pre ++
+    map (run_query (rload_all lenient now [] (loads_of pre))) qs ++
+    run_ops lenient now (rload_all lenient now [] (loads_of pre)) post.
+Proof. exact history_answers. Qed.
+Print Assumptions C16_history.
+
+Theorem C16_history_store :
+  forall lenient now ops, ops_store lenient now [] ops = rload_all lenient now [] (loads_of ops).
+Proof. intros. apply ops_store_loads. Qed.
+Print Assumptions C16_history_store.
+
+(* ---- (8) entity attributes: every value of every saml:Attribute of that Name is served ------------------------
+   the same Name in several Attributes of one EntityAttributes element and across several elements: the answer
+   under that Name is the concatenation, in document order, of ALL their values (nothing replaced, nothing
+   de-duplicated: its length is the sum of the lengths) *)
+Theorem C16_every_declared_attribute_value_served :
+  forall st eid e res elem a v,
+    store_get st eid = Some e -> store_entity_attributes st eid = Ok res ->
+    In elem (e_eattrs e) -> In a elem -> In v (ea_values a) ->
+    exists l, aget (ea_name a) res = Some l /\ In v l /\
+      l = vals_of (ea_name a) (List.concat (e_eattrs e)) /\
+      List.length l = fold_right (fun a' acc => ((if str_eqb (ea_name a) (ea_name a') then List.length (ea_values a') else O) + acc)%nat)
+                                 O (List.concat (e_eattrs e)).
+Proof.
+  intros st eid e res elem a v He Hres Helem Ha Hv.
+  destruct (all_attribute_values_served st eid e res elem a v He Hres Helem Ha Hv) as (l & H1 & H2 & H3).
+  exists l. split; [exact H1|]. split; [exact H2|]. split; [exact H3|]. rewrite H3. apply vals_of_length.
+Qed.
+Print Assumptions C16_every_declared_attribute_value_served.
+
+(* ---- (9) unknown entity vs unsupported binding does not depend on WHERE the source stands ---------------------
+   an entity with a role of that type in ANY registered source - first, middle or last - is never reported
+   unknown; one with such a role in no source is always reported unknown *)
+Theorem C16_known_in_any_source_never_unknown :
+  forall pre k m post eid typ svc b,
+    has_role m eid typ = true ->
+    store_service (pre ++ (k, m) :: post) eid typ svc b <> Err UnknownSystemEntity /\
+    ((exists l, store_service (pre ++ (k, m) :: post) eid typ svc b = Ok l /\ l <> []) \/
+     store_service (pre ++ (k, m) :: post) eid typ svc b = Err UnsupportedBinding).
+Proof.
+  intros pre k m post eid typ svc b Hr.
+  pose proof (known_anywhere_never_unknown pre k m post eid typ svc b Hr) as Hn. split; [exact Hn|].
+  destruct (store_service_classes (pre ++ (k, m) :: post) eid typ svc b) as [H|[H|H]]; [now left|now right|contradiction].
+Qed.
+Print Assumptions C16_known_in_any_source_never_unknown.
+
+(* the hypotheses are satisfiable: one store, a history with every spelling class *)
+Definition sp_ent (id : str) : entity := ex_ent id (s2l "https://x/sso") None [].
+Definition sp_single (key id : str) (v : vuspell) : rsource :=
+  {| rs_src := ex_src key Inline false (Ok true) {| d_signed := false; d_body := NotMetadata |};
+     rs_body := RSingle {| re_vu := v; re_iv := IvOk; re_ent := sp_ent id |} |}.
+Definition sp_many (key : str) (root : vuspell) (vs : list (str * vuspell)) : rsource :=
+  {| rs_src := ex_src key Inline false (Ok true) {| d_signed := false; d_body := NotMetadata |};
+     rs_body := RMany root IvOk (map (fun p => {| re_vu := snd p; re_iv := IvOk; re_ent := sp_ent (fst p) |}) vs) |}.
+Definition txt (t : Z) (sfx : str) : vuspell := Some {| vt_core := CoreDate t; vt_suffix := sfx |}.
+Example C16_spelling_example :
+  let ops := [OpLoad (sp_single (s2l "1") (s2l "A") (txt 99 (s2l ".999999999Z")));     (* expired, 9 digits *)
+              OpAsk [QKnown (s2l "A")];
+              OpLoad (sp_single (s2l "2") (s2l "A") (txt 100 (s2l ".5")));             (* now, fraction, no Z *)
+              OpAsk [QKnown (s2l "A"); QKnown (s2l "B")];
+              OpLoad (sp_many (s2l "3") (txt 100 []) [(s2l "B", txt 99 (s2l "Z")); (s2l "C", txt 101 (s2l ".1234567Z"))]);
+              OpLoad (sp_many (s2l "4") None [(s2l "D", None); (s2l "E", txt 500 (s2l "+01:00"))]);   (* fails closed *)
+              OpLoad (sp_single (s2l "5") (s2l "F") (Some {| vt_core := CoreShape; vt_suffix := s2l "Z" |}));   (* raises *)
+              OpAsk (map QKnown [s2l "A"; s2l "B"; s2l "C"; s2l "D"; s2l "E"; s2l "F"])] in
+  run_ops false 100 [] ops =
+    [VB true; VB false; VB true; VB true; VB false; VB true; VB true; VB false;
+     VB true; VB false; VB true; VB false; VB false; VB false] /\
+  run_ops true 100 [] ops = run_ops false 100 [] ops /\
+  run_ops true 100 [] [OpLoad (sp_single (s2l "6") (s2l "G") (txt 99 (s2l "+00:00"))); OpAsk [QKnown (s2l "G")]] = [VB true; VB true] /\
+  run_ops false 100 [] [OpLoad (sp_single (s2l "6") (s2l "G") (txt 99 (s2l "+00:00"))); OpAsk [QKnown (s2l "G")]] = [VB true; VB false].
+Proof. vm_compute. repeat split; reflexivity. Qed.
+Print Assumptions C16_spelling_example.
